@@ -221,8 +221,12 @@ class ProgGen:
         kw = {}
         if r.random() < 0.5:
             kw["ethertype"] = r.choice([0x0800, 0x86dd, 0x8100, r.getrandbits(16)])
-        mac = lambda: STR(bytes(r.getrandbits(8) for _ in range(6)))
-        return Call("eth::frame", mac(), mac(), _x=self.payload_args(), **kw), 1, False
+        # a hand-made frame must not look like a tool-built IPv4 datagram to the frame walker of the oracles
+        # (which recognises one by a leading 0x45): neither MAC nor the payload starts with 0x45
+        no45 = lambda b: bytes([b[0] ^ 1]) + b[1:] if b[:1] == b"\x45" else b
+        mac = lambda: STR(no45(bytes(r.getrandbits(8) for _ in range(6))))
+        lead = STR(no45(bytes([r.getrandbits(8)])))
+        return Call("eth::frame", mac(), mac(), _x=[lead] + self.payload_args(), **kw), 1, False
 
     def dnshost_expr(self):
         r = self.r
